@@ -59,7 +59,11 @@ def lit(q):
     return ["lit", [q.numerator, q.denominator]]
 
 
-def render(e):
+LEVEL = {"+": 1, "-": 1, "*": 2, "/": 2}
+
+
+def render(e, parent=0, right=False):
+    """Modelica text with the parentheses the tree needs (deep parenthesisation makes ANTLR very slow)."""
     t = e[0]
     if t == "ref":
         return e[1]
@@ -67,15 +71,20 @@ def render(e):
         return "%s[%s]" % (e[1], render(e[2]))
     if t == "lit":
         q = Fraction(e[1][0], e[1][1])
-        return str(q.numerator) if q.denominator == 1 else repr(float(q))
+        txt = str(q.numerator) if q.denominator == 1 else repr(float(q))
+        return "(%s)" % txt if q < 0 else txt
     if t == "time":
         return "time"
     if t == "der":
         return "der(%s)" % render(e[1])
     if t == "neg":
-        return "(-%s)" % render(e[1])
+        return "(-%s)" % render(e[1], 3)
     if t == "op":
-        return "(%s %s %s)" % (render(e[2]), e[1], render(e[3]))
+        lv = LEVEL[e[1]]
+        txt = "%s %s %s" % (render(e[2], lv, False), e[1], render(e[3], lv, True))
+        if lv < parent or (lv == parent and right):
+            return "(%s)" % txt
+        return txt
     if t == "delay":
         return "delay(%s, %s)" % (render(e[1]), render(e[2]))
     raise HarnessError("bad expr %r" % (e,))
@@ -156,6 +165,10 @@ class Gen:
         self.rng = rng
         self.stream = stream
         self.nid = 0
+        # "single": exactly one duration of the model is bad, through exactly one disallowed symbol, so that
+        # every disallowed category is regularly the *only* reason for a rejection; "clean": none is bad
+        self.mode = rng.choices(["free", "single", "clean"], [40, 40, 20])[0]
+        self.pending = True
 
     def coef(self):
         return self.rng.choice([2, 3, Fraction(1, 2), Fraction(3, 2), 4, Fraction(1, 4)])
@@ -243,6 +256,15 @@ class Gen:
         value_pool = scalar_atoms(("const", "param", "ufix", "ufree", "state", "alg")) + [["time"]]
 
         def duration(force=None, depth=0):
+            if force is None and self.mode != "free":
+                if self.mode == "single" and self.pending and r.random() < 0.5:
+                    self.pending = False
+                    one = r.choice(dis_pool) if r.random() < 0.9 else delay(self.combine(self.pick(value_pool, 1, 1)),
+                                                                          duration(False, 1))
+                    leaves = self.pick(allowed_pool, 0, 2) + [one]
+                    r.shuffle(leaves)
+                    return self.combine(leaves)
+                force = False
             bad = (r.random() < 0.4) if force is None else force
             leaves = self.pick(allowed_pool, 0 if bad else 1, 2)
             if not bad and not leaves and r.random() < 0.5:
@@ -711,6 +733,16 @@ def nontrivial(case):
 def buckets(ctx, case, verdict):
     ctx.count("stream-" + case["stream"])
     ctx.count("verdict-" + verdict)
+    why = expected_reject(case)
+    if why:
+        offenders = set()
+        for n, lp in all_delays(case):
+            for a in atoms(n[2], [], lp[0] if lp else None):
+                c = cat_of_atom(a, case["syms"])
+                if c in DISALLOWED:
+                    offenders.add(c)
+        if len(offenders) == 1:
+            ctx.count("sole-offender-" + offenders.pop())
     nodes = all_delays(case)
     ctx.count("delays-%d" % min(len(nodes), 5))
     for n, lp in nodes:
@@ -737,7 +769,7 @@ def run(ctx):
         ctx.case(c, nontrivial=True)
         check_case(ctx, c, drv)
     quick = ctx.tier == "quick"
-    plan = [("f1", 4 if quick else 40), ("f2", 3 if quick else 30), ("main", 220 if quick else 4000)]
+    plan = [("f1", 4 if quick else 40), ("f2", 3 if quick else 30), ("main", 300 if quick else 5000)]
     import random
     for stream, n in plan:
         for i in range(n):
@@ -769,4 +801,4 @@ MANIFEST = dict(
     technique="Lean 4 proof (induction over the translation of arbitrary expression/equation lists) + model/implementation "
               "correspondence + direct oracle with exact evaluation",
 )
-READY = False
+READY = True
